@@ -59,4 +59,6 @@ def check(model: Model, tier: str):
     obs += rules.rule_unres(model, scope)
     obs += rules.rule_defassign(model, scope)
     obs += rule_dtype(model, ["_tt_base.TT.__add__", "_tt_base.TT.__sub__", "_tt_base.TT.__mul__", "_tt_base.TT.__rtruediv__"])
+    from ..dtypekind import rule_narrow
+    obs += rule_narrow(model, [f for f in scope if f.name != "__repr__"])
     return obs, {"functions": ANCHORS}
